@@ -25,7 +25,7 @@ META = dict(
     level="model_checking",
     bounds={"quick": "every accepted skeleton of <= 3 heads + variety + special shapes (decoder-obtained trees) and 63 construction programs (every builder, all widths with fully symbolic values, strings 0..3 bytes, "
                      "partially filled definite containers, zero/multi-chunk strings, nesting <= 3, shared children); all scalar values and payload bytes symbolic",
-            "thorough": "<= 4 heads; DEBUG and NDEBUG"},
+            "thorough": "<= 4 heads (all of S(3), every accepted 4-head sequence, every 4th rejected and every 16th still-open 4-head sequence); DEBUG and NDEBUG"},
     assumptions=["simple values restricted to 20..23; half items hold half-representable values (built from a symbolic half pattern)", "round-trip obligations additionally assume each symbolic integer/tag argument is minimal for its width (the non-minimal cases are covered by the serialize-exact obligations, without reload)",
                  "functional obligation: pointer checks off (C01 / C07 decide memory safety)"],
     outside=["trees with more nodes than the bound"],
